@@ -1,7 +1,30 @@
 """C11 — source text is read with the documented precedence, literals and comments."""
+import os
+import framework as fw
+import layout_stream
 
-THEOREM_MODULES = ["Hcl.Theorems.C11", "Hcl.Theorems.C11Fuel", "Hcl.Proofs.ParseStmts", "Hcl.Tie.Lexer", "Hcl.Tie.Grammar", "Hcl.Tie.Preamble"]
-THEOREMS = {"Hcl.Proofs.ParseStmts": ["Parser.parseStmts_fuel_independent", "Parser.parseProgram_fuel_independent", "Parser.parseProgram_lex_error", "Parser.parseE_eq_none_iff", "Parser.parseStmts_ne_nil"],
+_binary = {}
+
+
+def pygen_layout(seed, count, outfile):
+    if "b" not in _binary:
+        ok, out, b = fw.build_binary()
+        if not ok:
+            raise RuntimeError("cargo build of /repo failed: " + out[-1500:])
+        _binary["b"] = b
+    layout_stream.generate(_binary["b"], seed, count, outfile, os.path.join(fw.BUILD, "layout-work-%d" % os.getpid()))
+
+
+def judge_layout(req, impl, model, spec):
+    ok = impl == "same"
+    cat = req.split("(eol ")[1].split(")")[0] if "(eol " in req else "?"
+    return {"corr": True, "oracle": ok, "what": "" if ok else "the same program in another layout (line ends: %s) is read differently: %s" % (cat, impl[:300]),
+            "key": req, "cats": ["eol-" + cat, "decorated" if "(decorated 1)" in req else "plain"]}
+
+
+THEOREM_MODULES = ["Hcl.Theorems.C11", "Hcl.Theorems.C11Fuel", "Hcl.Proofs.ParseStmts", "Hcl.Tie.Lexer", "Hcl.Tie.Grammar", "Hcl.Tie.Preamble", "Hcl.Theorems.C11Layout"]
+THEOREMS = {"Hcl.Theorems.C11Layout": ["C11_spans_do_not_steer_expressions", "C11_spans_do_not_steer_statements", "C11_same_tokens_same_meaning", "C11_skipped_text", "C11_layout_in_front", "C11_layout_after_token", "C11_blank_between_tokens", "C11_block_comment_after_token", "C11_hash_comment_after_token", "C11_line_ending_style", "C11_parse_extends", "C11_redundant_parens_simple", "C11_redundant_parens", "C11_redundant_parens_statement"],
+            "Hcl.Proofs.ParseStmts": ["Parser.parseStmts_fuel_independent", "Parser.parseProgram_fuel_independent", "Parser.parseProgram_lex_error", "Parser.parseE_eq_none_iff", "Parser.parseStmts_ne_nil"],
             "Hcl.Theorems.C11Fuel": ["C11_parser_fuel_monotone", "C11_parser_fuel_enough", "C11_parser_fuel_independent"],
             "Hcl.Theorems.C11": ["C11_block_comment", "C11_hash_comment", "C11_slash_comment", "C11_blank_space", "C11_pairs_and_triples_grouped", "C11_unary_slice_in", "Grouping.level_documented", "Grouping.slice_tightest", "Grouping.unary_slice_needs_parentheses", "Grouping.in_level", "Lexer.skipBlock_skips", "C11_model_tiers_documented", "C11_grammar_tiers_documented", "C11_grammar_ops_documented",
                                  "C11_preamble_values", "C11_binary", "C11_hex", "C11_decimal", "C11_digit"]}
@@ -15,6 +38,7 @@ RULE = ("S-PARSE: every ordered pair of binary operators in both groupings, ever
         "comments; the real lexer must produce exactly the value, width (digit count for binary) and span known by construction, "
         "or InvalidConstant for literals that do not fit (oracle); the Lean lexer model must agree (correspondence). "
         "S-PROG (statement grammar): for every program text of the program streams the Lean model of the statement grammar (declarations, chained and comma-separated assignments, register banks, separators; success path) parses the text itself and must produce the AST the real parser produced. "
+        "S-LAYOUT: three programs written with LF, CRLF, bare-CR and doubled line ends, with comments of the three kinds, blank lines and tabs between and after statements, as FILES through the real binary: the final state printed must be the one the plain LF text prints. "
         "S-LEX: token soup with Unicode blanks/letters, unterminated comments, malformed literals: real lexer vs. model. "
         "non-trivial = cases with at least two operators / one literal; distinct = distinct texts.")
 
@@ -62,5 +86,6 @@ def streams(tier, seed):
     return [{"name": "parse", "stream": "parse", "count": 3000 if q else 200000, "judge": judge},
             {"name": "literal", "stream": "literal", "count": 4000 if q else 300000, "judge": judge},
             {"name": "lex", "stream": "lex", "count": 4000 if q else 300000, "judge": judge_soup},
+            {"name": "layout", "stream": "layout", "count": 150 if q else 6000, "pygen": pygen_layout, "judge": judge_layout},
             {"name": "stmts", "stream": "prog", "count": 300 if q else 20000, "extra": ("banks",), "judge": judge_stmts},
             {"name": "stmts-text", "stream": "anytext", "count": 1500 if q else 100000, "judge": judge_stmts}]
